@@ -20,6 +20,12 @@ type c17Case struct {
 	List [][2]int `json:"list,omitempty"`
 	A    int      `json:"a"`
 	B    int      `json:"b"`
+	// sequences (op = "seq"): r1 = Op1(a, b); r2 = Op2(a, c) or Op2(c, a); r1, a, b, c must be unchanged afterwards
+	C    int    `json:"c,omitempty"`
+	Op1  string `json:"op1,omitempty"`
+	Op2  string `json:"op2,omitempty"`
+	Swap bool   `json:"swap,omitempty"`
+	Unit bool   `json:"unit,omitempty"` // operands built from unit intervals (NewMap has to merge them)
 }
 
 const c17U = 8
@@ -118,7 +124,87 @@ func c17Run[T constraints.Integer](c c17Case, base T) *eng.Fail {
 	return nil
 }
 
+func unitIntervals[T constraints.Integer](m int, base T) []interval.Interval[T] {
+	var out []interval.Interval[T]
+	for i := 0; i < c17U; i++ {
+		if m>>i&1 == 1 {
+			out = append(out, interval.New(base+T(i), base+T(i)+1))
+		}
+	}
+	return out
+}
+
+func c17Op[T constraints.Integer](op string, x, y interval.Map[T]) interval.Map[T] {
+	switch op {
+	case "union":
+		return interval.MapUnion(x, y)
+	case "complement":
+		return interval.MapComplement(x, y)
+	}
+	return interval.MapIntersect(x, y)
+}
+
+func c17Mask(op string, x, y int) int {
+	switch op {
+	case "union":
+		return x | y
+	case "complement":
+		return x &^ y
+	}
+	return x & y
+}
+
+// c17Seq: two operations sharing the operand a; results of earlier operations and the
+// operands must not be altered by later ones.
+func c17Seq[T constraints.Integer](c c17Case, base T) *eng.Fail {
+	mk := func(m int) interval.Map[T] {
+		if c.Unit {
+			return interval.NewMap(unitIntervals(m, base)...)
+		}
+		return interval.NewMap(maskIntervals(m, base)...)
+	}
+	var fail *eng.Fail
+	p, stack := eng.Catch(func() {
+		a, b, cc := mk(c.A), mk(c.B), mk(c.C)
+		r1 := c17Op(c.Op1, a, b)
+		var r2 interval.Map[T]
+		exp2 := 0
+		if c.Swap {
+			r2, exp2 = c17Op(c.Op2, cc, a), c17Mask(c.Op2, c.C, c.A)
+		} else {
+			r2, exp2 = c17Op(c.Op2, a, cc), c17Mask(c.Op2, c.A, c.C)
+		}
+		check := func(name string, m interval.Map[T], exp int) {
+			if fail != nil {
+				return
+			}
+			got, e := checkCanon(m, base)
+			if e != "" || got != exp {
+				fail = &eng.Fail{Sig: "sequence alters " + name, What: fmt.Sprintf("after r1=%s(a,b); r2=%s(a,c): %s denotes %08b %s, expected %08b", c.Op1, c.Op2, name, got, e, exp), Case: c}
+			}
+		}
+		check("second result", r2, exp2)
+		check("earlier result", r1, c17Mask(c.Op1, c.A, c.B))
+		check("operand a", a, c.A)
+		check("operand b", b, c.B)
+		check("operand c", cc, c.C)
+	})
+	if p != nil {
+		return &eng.Fail{Sig: "sequence panic " + eng.PanicSite(stack), What: fmt.Sprintf("panics: %v", p), Case: c}
+	}
+	return fail
+}
+
 func c17Dispatch(c c17Case) *eng.Fail {
+	if c.Op == "seq" {
+		switch c.Type {
+		case "int":
+			return c17Seq[int](c, 0)
+		case "uint64top":
+			return c17Seq[uint64](c, math.MaxUint64-c17U)
+		}
+		return c17Seq[int](c, -4)
+	}
 	switch c.Type {
 	case "int":
 		return c17Run[int](c, 0)
@@ -136,7 +222,7 @@ func c17Dispatch(c c17Case) *eng.Fail {
 
 func init() {
 	checks["C17"] = eng.Check{
-		Rule: "every list of <=3 (quick) / <=4 (thorough) non-empty intervals over an 8-integer universe for NewMap; all 256x256 pairs of sets for union, complement, intersect; at 5 placements (int at 0, int straddling 0, int64 at MinInt64, uint64 and uint8 ending at Max). Non-trivial = case whose expected result is a non-empty set and whose operands are both non-empty.",
+		Rule: "every list of <=3 (quick) / <=4 (thorough) non-empty intervals over an 8-integer universe for NewMap; all 256x256 pairs of sets for union, complement, intersect; at 5 placements (int at 0, int straddling 0, int64 at MinInt64, uint64 and uint8 ending at Max); sequences r1=op1(a,b), r2=op2(a,c) or op2(c,a) over all 64^3 triples of 6-bit sets in 3 relative placements x 9 operator pairs (quick: all pairs involving union, a quarter of the others), operands built directly and from unit intervals that NewMap must merge: the second result is exact and the earlier result and all operands are unchanged. Non-trivial = case whose expected result is a non-empty set and whose operands are both non-empty.",
 		Assumptions: []string{
 			"interval ends are representable (universe ends at Max, never beyond)",
 			"NewMap receives only non-empty intervals (the property's domain)",
@@ -206,6 +292,36 @@ func init() {
 					rec([][2]int{ivs[i0]})
 				})
 			}
+			// sequences sharing an operand: later operations must not alter earlier results or operands
+			ops := []string{"union", "complement", "intersect"}
+			r.Par(64, func(a int) {
+				for b := 0; b < 64; b++ {
+					for cm := 0; cm < 64; cm++ {
+						// shift the three sets apart / together within the 8-element universe
+						for _, sh := range [][3]uint{{0, 0, 0}, {0, 2, 2}, {0, 1, 2}} {
+							A, B, C := a<<sh[0]&0xff, b<<sh[1]&0xff, cm<<sh[2]&0xff
+							for _, o1 := range ops {
+								for _, o2 := range ops {
+									if r.Quick() && o1 != "union" && o2 != "union" && (a+b+cm)%4 != 0 {
+										continue
+									}
+									for _, fl := range []struct{ swap, unit bool }{{false, true}, {true, false}} {
+										c := c17Case{Type: []string{"int", "uint64top"}[(a+b)%2], Op: "seq", A: A, B: B, C: C, Op1: o1, Op2: o2, Swap: fl.swap, Unit: fl.unit}
+										f := c17Dispatch(c)
+										r.Eval(1)
+										r.Nontrivial(1)
+										if f != nil {
+											r.Report(f)
+											r.Outcome(f.Sig)
+										}
+									}
+								}
+							}
+						}
+					}
+				}
+			})
+			r.Sample(c17Case{Type: "int", Op: "seq", A: 0b11, B: 0b110000, C: 0b11000000, Op1: "union", Op2: "union", Unit: true})
 			r.Sample(c17Case{Type: "int", Op: "intersect", A: 0b101, B: 0b10111})
 		},
 		Replay: func(r *eng.Run, raw json.RawMessage) *eng.Fail {
